@@ -7,6 +7,7 @@ from . import _rows
 
 PROP = "C04"
 LEVEL = "exploration"
+ANCHORS = ["_solv_", "_calc_inp_current", "_get_state", "_get_outp_voltage", "_sys_init"]  # functions whose reached lines are reported in the evidence
 RULE = (
     "cases = random SystemSpecs in which 1-3 dead elements are planted at random depths (0 V source, source / "
     "converter / regulator / switch / mux inactive in some phases, LinReg with |vi|<=vdrop, mux whose inputs are "
